@@ -124,26 +124,35 @@ def _stmt_paths(s: ast.stmt) -> List[Path]:
         return out
     if isinstance(s, (ast.For, ast.While)):
         out = []
-        # zero iterations
-        skip_ev = [("loop", s, "skip")]
+        # a while loop evaluates its test: false to skip / leave, true to enter
         if isinstance(s, ast.While):
-            pass
-        for q in enumerate_paths(s.orelse) if s.orelse else [Path([])]:
-            out.append(Path(skip_ev + q.events, q.exit, q.exit_node))
+            skips = [ev for ev, res in cond_paths(s.test) if not res]
+            enters = [ev for ev, res in cond_paths(s.test) if res]
+            is_true_const = isinstance(s.test, ast.Constant) and bool(s.test.value)
+            if is_true_const:
+                skips, enters = [], [[]]
+        else:
+            skips, enters = [[]], [[]]
+        # zero iterations
+        for sk in skips:
+            skip_ev = [("loop", s, "skip")] + sk
+            for q in enumerate_paths(s.orelse) if s.orelse else [Path([])]:
+                out.append(Path(skip_ev + q.events, q.exit, q.exit_node))
         # one (representative) iteration
-        enter = [("loop", s, "enter")]
-        if isinstance(s, ast.For):
-            enter.append(("iter", s))
-        for q in enumerate_paths(s.body):
-            ev = enter + q.events
-            if q.exit in ("fall", "continue"):
-                ev = ev + [("loop", s, "exit")]
-                for r in enumerate_paths(s.orelse) if s.orelse else [Path([])]:
-                    out.append(Path(ev + r.events, r.exit, r.exit_node))
-            elif q.exit == "break":
-                out.append(Path(ev + [("loop", s, "exit")]))
-            else:
-                out.append(Path(ev, q.exit, q.exit_node))
+        for en in enters:
+            enter = [("loop", s, "enter")] + en
+            if isinstance(s, ast.For):
+                enter.append(("iter", s))
+            for q in enumerate_paths(s.body):
+                ev = enter + q.events
+                if q.exit in ("fall", "continue"):
+                    ev = ev + [("loop", s, "exit")]
+                    for r in enumerate_paths(s.orelse) if s.orelse else [Path([])]:
+                        out.append(Path(ev + r.events, r.exit, r.exit_node))
+                elif q.exit == "break":
+                    out.append(Path(ev + [("loop", s, "exit")]))
+                else:
+                    out.append(Path(ev, q.exit, q.exit_node))
         return out
     if isinstance(s, ast.With):
         out = []
